@@ -146,9 +146,29 @@ pub fn expected_boundary(now_ns: i64, s_minus_delay_ns: i64, u: Unit, n: i64, mo
     if next_utc > 9_000_000_000_000_000_000 || s_minus_delay_ns > 9_000_000_000_000_000_000 {
         return Expect::OutOfRange;
     }
-    // proviso: same offset at start-of-unit, now, the expected and the actual boundary,
-    // and just before each boundary (a transition exactly at the boundary changes the mapping)
-    let probes = [start_utc, start_utc - 1_000_000_000, next_utc, next_utc - 1_000_000_000, s_minus_delay_ns, s_minus_delay_ns - 1_000_000_000];
+    // proviso: the zone's offset is the same over the whole span from the
+    // start of the current unit to the later of the expected and the actual
+    // boundary ("wherever the zone's UTC offset does not change in between").
+    // Transitions come in pairs months apart, so sampling every 12 hours
+    // cannot miss one; spans of more than 400 days always contain one in a
+    // zone that has daylight-saving rules.
+    let lo = start_utc - 1_000_000_000;
+    let hi = next_utc.max(s_minus_delay_ns);
+    let has_dst = std::env::var("TZ").map(|z| z.contains(',')).unwrap_or(true);
+    const STEP: i64 = 12 * 3600 * 1_000_000_000;
+    if has_dst {
+        if (hi - lo) / STEP > 800 {
+            return Expect::OffsetChanges;
+        }
+        let mut t = lo;
+        while t < hi {
+            if offset_at(t) != off {
+                return Expect::OffsetChanges;
+            }
+            t += STEP;
+        }
+    }
+    let probes = [lo, start_utc, next_utc, next_utc - 1_000_000_000, s_minus_delay_ns, s_minus_delay_ns - 1_000_000_000, hi];
     if probes.iter().any(|p| offset_at(*p) != off) {
         return Expect::OffsetChanges;
     }
